@@ -17,6 +17,8 @@ import z3
 
 MAXW = 96          # widest bit-vector the engine will build (lomond's widest value: 64-bit length)
 QUERY_TIMEOUT_MS = 20000
+XVAL_STRIDE = 0
+XVAL_SEED = 0
 LOGIC = os.environ.get('SX_LOGIC', 'QF_BV')   # harnesses using reals set engine.LOGIC = None
 
 
@@ -44,16 +46,27 @@ class EngineLimit(BaseException):
 class Violation(BaseException):
     """A prove() obligation has a counterexample on this path."""
 
-    def __init__(self, what, model):
+    def __init__(self, what, model, sig=None):
         BaseException.__init__(self, what)
         self.what = what
         self.model = model
+        self.sig = sig or canon_sig(what)
+
+
+def canon_sig(what):
+    """canonical signature of a failed obligation: the text with numbers and reprs removed"""
+    import re
+    s = re.sub(r"\(events .*?\)$", '', what)
+    s = re.sub(r"\[.*?\]", '[]', s)
+    s = re.sub(r"\d+", 'N', s)
+    return s.strip()
 
 
 class Ctx(object):
     cur = None
 
-    def __init__(self):
+    def __init__(self, concrete=None):
+        self.concrete = concrete  # dict name -> value: replay mode (no solver, pristine code)
         self.solver = z3.SolverFor(LOGIC) if LOGIC else z3.Solver()
         self.solver.set('timeout', QUERY_TIMEOUT_MS)
         self.prefix = []
@@ -62,6 +75,7 @@ class Ctx(object):
         self.prove_queries = 0
         self.t_solver = 0.0
         self.nfresh = 0
+        self.nchoose = 0
         self.inputs = []          # (name, z3 const) in creation order -- for model extraction
         self.notes = {}           # per-path scratch for harness
         self.last_model = None    # a model of the current path condition (saves feasibility queries)
@@ -71,6 +85,7 @@ class Ctx(object):
         self.prefix = prefix
         self.trace = []
         self.nfresh = 0
+        self.nchoose = 0
         self.inputs = []
         self.notes = {}
         self.last_model = None
@@ -88,6 +103,31 @@ class Ctx(object):
         if r == z3.unknown:
             raise EngineLimit('solver returned unknown: %s' % self.solver.reason_unknown())
         return r
+
+    # ---- harness inputs (symbolic in exploration, concrete in replay) --------------------
+    def byte(self, name):
+        if self.concrete is not None:
+            return int(self.concrete.get(name, 0)) & 0xFF
+        return SymInt(self.fresh_bv(name, 8), 8)
+
+    def int(self, name, w):
+        if self.concrete is not None:
+            return int(self.concrete.get(name, 0)) & ((1 << w) - 1)
+        return SymInt(self.fresh_bv(name, w), w)
+
+    def boolean(self, name):
+        if self.concrete is not None:
+            return bool(self.concrete.get(name, False))
+        return SymBool(self.fresh_bool(name))
+
+    def real(self, name):
+        if self.concrete is not None:
+            from fractions import Fraction
+            fr = self.concrete.get(name + '#frac')
+            if fr is not None:
+                return Fraction(fr)
+            return Fraction(self.concrete.get(name, 0))
+        return SymReal(self.fresh_real(name))
 
     def fresh_bv(self, name, w):
         self.nfresh += 1
@@ -107,6 +147,10 @@ class Ctx(object):
 
     def assume(self, cond):
         cond = _b(cond)
+        if self.concrete is not None:
+            if not z3.is_true(z3.simplify(cond)):
+                raise PathAbort('replayed values do not satisfy a harness assumption')
+            return
         self.solver.add(cond)
         if self._check() != z3.sat:
             raise PathAbort('assumption infeasible')
@@ -119,6 +163,8 @@ class Ctx(object):
             return True
         if z3.is_false(cond):
             return False
+        if self.concrete is not None:
+            raise EngineLimit('symbolic condition reached in concrete replay')
         i = len(self.trace)
         if i < len(self.prefix):
             taken = self.prefix[i]
@@ -163,7 +209,11 @@ class Ctx(object):
         if n <= 1:
             return 0
         w = max(1, (n - 1).bit_length())
-        v = self.fresh_bv('%s#%d' % (name, self.nfresh), w)
+        self.nchoose += 1
+        vname = '%s#%d' % (name, self.nchoose)
+        if self.concrete is not None:
+            return min(n - 1, int(self.concrete.get(vname, 0)))
+        v = self.fresh_bv(vname, w)
         if n < (1 << w):
             self.solver.add(z3.ULT(v, bvv(n, w)))
         for k in range(n - 1):
@@ -172,26 +222,38 @@ class Ctx(object):
         return n - 1
 
     def feasible(self, cond):
+        if self.concrete is not None:
+            return z3.is_true(z3.simplify(_b(cond)))
         return self._check(_b(cond)) == z3.sat
 
-    def prove(self, cond, what):
+    def prove(self, cond, what, sig=None):
         """Obligation: cond holds for every value on this path. sat(not cond) -> Violation."""
         cond = z3.simplify(_b(cond))
         self.prove_queries += 1
         if z3.is_true(cond):
             return
+        if self.concrete is not None:
+            if z3.is_false(cond):
+                raise Violation(what, dict(self.concrete), sig)
+            raise EngineLimit('symbolic obligation in concrete replay')
         r = self._check(z3.Not(cond))
         if r == z3.sat:
-            raise Violation(what, self.model())
+            raise Violation(what, self.model(), sig)
 
-    def fail(self, what):
+    def fail(self, what, sig=None):
         """Unconditional violation on this (feasible) path."""
         self.prove_queries += 1
+        if self.concrete is not None:
+            raise Violation(what, dict(self.concrete), sig)
         if self._check() == z3.sat:
-            raise Violation(what, self.model())
+            raise Violation(what, self.model(), sig)
         raise PathAbort('infeasible at fail')
 
     def model(self):
+        if self.concrete is not None:
+            return dict(self.concrete)
+        if self._check() != z3.sat:
+            raise PathAbort('no model')
         m = self.solver.model()
         out = {}
         for name, v in self.inputs:
@@ -607,6 +669,7 @@ class Result(object):
         self.limits = []          # inconclusive reasons
         self.classes = {}         # class label -> count
         self.samples = []
+        self.xval = []            # sampled (model, observable) pairs for cross-validation on pristine code
         self.wall = 0.0
 
     def merge(self, o):
@@ -621,8 +684,10 @@ class Result(object):
         for k, v in o.classes.items():
             self.classes[k] = self.classes.get(k, 0) + v
         for s in o.samples:
-            if len(self.samples) < 12:
-                self.samples.append(s)
+            _keep_sample(self.samples, s, 8)
+        for x in o.xval:
+            if len(self.xval) < 80:
+                self.xval.append(x)
 
 
 def explore(run, stack=None, max_paths=10 ** 7, stop_on_violation=True, deadline=None, leftover=False):
@@ -647,7 +712,7 @@ def explore(run, stack=None, max_paths=10 ** 7, stop_on_violation=True, deadline
             status = 'abort'
         except Violation as v:
             status = 'violation'
-            res.violations.append((v.what, v.model, c.notes.get('scenario')))
+            res.violations.append((v.what, v.model, c.notes.get('scenario'), v.sig))
         except EngineLimit as e:
             status = 'limit'
             res.limits.append(str(e))
@@ -655,6 +720,13 @@ def explore(run, stack=None, max_paths=10 ** 7, stop_on_violation=True, deadline
             status = 'limit'
             res.limits.append('recursion: %s' % e)
         decisions = [t for t, _ in c.trace]
+        if status == 'ok' and out and 'observe' in out and XVAL_STRIDE and len(res.xval) < 8:
+            import zlib as _z
+            if (_z.crc32(bytes(decisions)) + XVAL_SEED) % XVAL_STRIDE == 0:
+                try:
+                    res.xval.append(dict(model=c.model(), observe=out['observe']))
+                except (PathAbort, EngineLimit):
+                    pass
         for i in range(len(prefix), len(c.trace)):
             taken, other = c.trace[i]
             if other:
@@ -670,8 +742,8 @@ def explore(run, stack=None, max_paths=10 ** 7, stop_on_violation=True, deadline
                 if cls is not None:
                     for k in (cls if isinstance(cls, (list, tuple, set)) else [cls]):
                         res.classes[k] = res.classes.get(k, 0) + 1
-                if 'sample' in out and len(res.samples) < 6:
-                    res.samples.append(out['sample'])
+                if 'sample' in out:
+                    _keep_sample(res.samples, out['sample'], 6)
         if status == 'violation' and stop_on_violation:
             break
         if res.paths + res.aborted >= max_paths:
@@ -689,6 +761,17 @@ def explore(run, stack=None, max_paths=10 ** 7, stop_on_violation=True, deadline
     if leftover:
         return res, stack
     return res
+
+
+def _keep_sample(lst, s, cap):
+    """keep the `cap` most informative (longest when written out), distinct samples"""
+    k = repr(s)
+    for x in lst:
+        if repr(x) == k:
+            return
+    lst.append(s)
+    lst.sort(key=lambda x: -len(repr(x)))
+    del lst[cap:]
 
 
 _WORK = {}
